@@ -1,6 +1,7 @@
 import ApdVerif.Model.Dispatch
 import ApdVerif.Oracle.Roots
 import ApdVerif.Spec.Defs
+import ApdVerif.Lemmas.C11Lemmas
 /-!
 # C11 (partial) — Sqrt is correctly rounded; Cbrt is within one unit and exact on perfect cubes
 
@@ -11,15 +12,20 @@ precision-doubling loop.  What is NOT proved: that the Newton iterates are accur
 Sqrt that is false on the current tree (double rounding, DESIGN finding F2).
 -/
 namespace Apd.Props
-open Apd Apd.Oracle
+open Apd Apd.Oracle Apd.C11L
 
 theorem C11_isqrt (n : Nat) : isqrt n * isqrt n ≤ n ∧ n < (isqrt n + 1) * (isqrt n + 1) := by
-  sorry
+  have h := isqrt_eq n (Nat.sqrt n) (Nat.sqrt_le n) (Nat.lt_succ_sqrt n)
+  rw [h]
+  exact ⟨Nat.sqrt_le n, Nat.lt_succ_sqrt n⟩
 
 theorem C11_icbrt (n : Nat) :
     icbrt n * icbrt n * icbrt n ≤ n ∧ n < (icbrt n + 1) * (icbrt n + 1) * (icbrt n + 1) := by
-  sorry
+  obtain ⟨s, h1, h2⟩ := exists_cbrt n
+  rw [icbrt_eq n s h1 h2]
+  exact ⟨h1, h2⟩
 
+set_option linter.unusedVariables false in
 /-- `specSqrt` (finite, non-overflowing case) returns the multiple `m·10^q` of the quantum nearest to
 `√x`, ties to even, stated on squares: with `X = x / 10^(2q)` (as `num/den`),
 `(2m-1)² ≤ 4X ≤ (2m+1)²`, strictly unless the tie goes to the even side; and Inexact iff `m² ≠ X`. -/
@@ -33,7 +39,24 @@ theorem C11_specSqrt_nearest (c : Ctx) (x : Dec) (hx : x.coeff ≠ 0) :
     (4 * num = (2 * s.m + 1) * (2 * s.m + 1) * den → s.m % 2 = 0) ∧
     (s.m ≠ 0 → (2 * s.m - 1) * (2 * s.m - 1) * den = 4 * num → s.m % 2 = 0) ∧
     (s.inexact = false ↔ s.m * s.m * den = num) := by
-  sorry
+  dsimp only
+  intro hinf
+  obtain ⟨hm, hq, hi⟩ := specSqrt_fields c x hinf
+  rw [hm, hq, hi]
+  apply nearest_core
+  · split
+    · exact Nat.one_pos
+    · exact Nat.pow_pos (by decide)
+  · apply (Nat.le_div_iff_mul_le _).mp
+    · exact (C11_isqrt _).1
+    · split
+      · exact Nat.one_pos
+      · exact Nat.pow_pos (by decide)
+  · apply (Nat.div_lt_iff_lt_mul _).mp
+    · exact (C11_isqrt _).2
+    · split
+      · exact Nat.one_pos
+      · exact Nat.pow_pos (by decide)
 
 /-- `cbrtWithinUlp` says what it should: with `u` the exponent of one unit in the last place of a
 `prec`-digit result and `M·10^u` the result, `((M-1)·10^u)³ ≤ |x| ≤ ((M+1)·10^u)³`. -/
@@ -45,12 +68,42 @@ theorem C11_cbrtWithinUlp_sound (c : Ctx) (x d : Dec) (h : cbrtWithinUlp c x d =
      let sh := x.exp - 3 * u
      if sh ≥ 0 then (M - 1) ^ 3 ≤ x.coeff * 10 ^ sh.toNat ∧ x.coeff * 10 ^ sh.toNat ≤ (M + 1) ^ 3
      else (M - 1) ^ 3 * 10 ^ (-sh).toNat ≤ x.coeff ∧ x.coeff ≤ (M + 1) ^ 3 * 10 ^ (-sh).toNat) := by
-  sorry
+  dsimp only
+  unfold cbrtWithinUlp at h
+  simp only [] at h
+  split at h
+  · exact absurd h (by simp)
+  · rename_i hu
+    refine ⟨by omega, ?_⟩
+    have p3 : ∀ a : Nat, a ^ 3 = a * a * a := fun a => by
+      rw [Nat.pow_succ, Nat.pow_succ, Nat.pow_one]
+    simp only [p3]
+    split at h
+    · rename_i hs
+      rw [if_pos hs]
+      simpa using h
+    · rename_i hs
+      rw [if_neg hs]
+      simpa using h
 
 /-- `perfectCube` finds the root exactly when there is one -/
 theorem C11_perfectCube (x : Dec) (r : Nat) (k : Int) (h : perfectCube x = some (r, k)) :
     x.exp = 3 * k + Int.emod x.exp 3 ∧ r * r * r = x.coeff * 10 ^ (Int.emod x.exp 3).toNat := by
-  sorry
+  unfold perfectCube at h
+  simp only [] at h
+  split at h
+  · rename_i hc
+    simp only [Option.some.injEq, Prod.mk.injEq] at h
+    obtain ⟨hr, hk⟩ := h
+    have hc' := hc
+    rw [beq_iff_eq] at hc'
+    rw [hr] at hc'
+    refine ⟨?_, hc'⟩
+    rw [← hk, Int.fdiv_eq_ediv_of_nonneg _ (by decide)]
+    have : Int.emod x.exp 3 = x.exp % 3 := rfl
+    rw [this]
+    omega
+  · exact absurd h (by simp)
 
 /-- the precision-doubling loop of Sqrt reaches `maxp` within the fuel the model gives it:
 from p = 3, after k steps p ≥ min(maxp, 2^k + 2) -/
@@ -58,16 +111,53 @@ def precStep (maxp : Nat) : Nat → Nat → Nat
   | 0, p => p
   | k+1, p => precStep maxp k (min maxp (2 * p - 2))
 
+theorem precStep_reach (maxp : Nat) (hm : 3 ≤ maxp) :
+    ∀ k p, 3 ≤ p → p ≤ maxp → maxp ≤ 2 ^ k * (p - 2) + 2 → precStep maxp k p = maxp := by
+  intro k
+  induction k with
+  | zero => intro p h3 hp hk; simp only [precStep]; omega
+  | succ k ih =>
+    intro p h3 hp hk
+    simp only [precStep]
+    apply ih
+    · omega
+    · omega
+    · have hpos : 0 < 2 ^ k := Nat.pow_pos (by decide)
+      by_cases hcap : maxp ≤ 2 * p - 2
+      · rw [Nat.min_eq_left hcap]
+        have : 1 * (maxp - 2) ≤ 2 ^ k * (maxp - 2) := Nat.mul_le_mul_right _ hpos
+        omega
+      · rw [Nat.min_eq_right (by omega)]
+        have e : 2 * p - 2 - 2 = 2 * (p - 2) := by omega
+        rw [e, ← Nat.mul_assoc, ← Nat.pow_succ]
+        exact hk
+
 theorem C11_sqrtLoop_terminates (maxp : Nat) (hm : 3 ≤ maxp) (hb : maxp < 2 ^ 62) :
     ∃ k, k ≤ 64 ∧ precStep maxp k 3 = maxp := by
-  sorry
+  refine ⟨62, by decide, ?_⟩
+  apply precStep_reach maxp hm 62 3 (by omega) hm
+  omega
 
 /-- special operands of Sqrt and Cbrt (also part of C08) -/
 theorem C11_sqrt_negative (c : Ctx) (x : Dec) (hx : x.form = .finite) (hn : x.neg = true) (hc : x.coeff ≠ 0) :
     (sqrtOp c x).d.form = .nan ∧ (sqrtOp c x).fl = Cond.cInvalidOp := by
-  sorry
+  have hnan : x.isNaN = false := by simp [Dec.isNaN, hx]
+  have hsign : x.sign = -1 := by simp [Dec.sign, hx, hc, hn]
+  have : rootSpecials c x 2 = some (invalidNaN c) := by
+    simp [rootSpecials, shouldSetAsNaN, hnan, hx, hsign]
+  unfold sqrtOp
+  rw [this]
+  exact ⟨rfl, rfl⟩
 
 example : isqrt 99 = 9 := by decide
 example : icbrt 1000 = 10 := by decide
+
+#print axioms C11_isqrt
+#print axioms C11_icbrt
+#print axioms C11_specSqrt_nearest
+#print axioms C11_cbrtWithinUlp_sound
+#print axioms C11_perfectCube
+#print axioms C11_sqrtLoop_terminates
+#print axioms C11_sqrt_negative
 
 end Apd.Props
